@@ -34,7 +34,7 @@ def gen_cases(ctx, n, cuts, muts):
     return L.parse_cases(out)
 
 
-def run_dec_child(cases, vlimit_kb=24_000_000, per_case_timeout=40, max_restarts=40):
+def run_dec_child(cases, vlimit_kb=24_000_000, per_case_timeout=40, max_restarts=40, max_hangs=3):
     """Run the real decoder on `dec` cases in a child under an address-space limit.
     A child that dies is restarted after the case it was working on; that case is
     classified from the child's stderr (out of memory -> oom, else crash)."""
@@ -42,6 +42,7 @@ def run_dec_child(cases, vlimit_kb=24_000_000, per_case_timeout=40, max_restarts
     results = {}
     i = 0
     restarts = 0
+    hangs = 0
     while i < len(cases):
         chunk = cases[i:]
         inp = "".join(c["line"] + "\n" for c in chunk)
@@ -65,6 +66,11 @@ def run_dec_child(cases, vlimit_kb=24_000_000, per_case_timeout=40, max_restarts
             # cannot be stopped): continue with the next case
             i += got
             restarts += 1
+            hangs += 1
+            if hangs > max_hangs:
+                # a decoder that spins on case after case: what was observed is already a
+                # violation; do not spend a watchdog period on every remaining case
+                break
             continue
         # the child died while working on chunk[got]
         dead = chunk[got]
@@ -72,6 +78,9 @@ def run_dec_child(cases, vlimit_kb=24_000_000, per_case_timeout=40, max_restarts
             results[dead["id"]] = "oom"
         elif "TIMEOUT" in err:
             results[dead["id"]] = "hang"
+            hangs += 1
+            if hangs > max_hangs:
+                break
         else:
             results[dead["id"]] = "crash:" + err.strip().splitlines()[0][:120] if err.strip() else "crash"
         i += got + 1
